@@ -22,7 +22,7 @@ namespace Scfg
 inductive WState
   | at (b : Name) (val : Val)
   | halt
-  | err (msg : String)
+  | err (ctl : Bool) (msg : String)
   deriving DecidableEq, Repr, Inhabited
 
 /-! ## The original graph -/
@@ -30,9 +30,9 @@ inductive WState
 /-- States: `some n` = at block `n`; `none` = fell off the graph (never reached in a run). -/
 def sysOrig (G : Hier) : Sys (Option Name) where
   obs := fun s => match s with
-    | none => .err "orig:no-such-block"
+    | none => .err false "orig:no-such-block"
     | some n => match G.get? n with
-      | none => .err "orig:no-such-block"
+      | none => .err false "orig:no-such-block"
       | some b => .blk n b.jts.length
   step := fun s i => match s with
     | none => none
@@ -57,16 +57,16 @@ def resolve (H : Hier) : Nat → Name → Option Blk
 
 /-- Control-variable part of executing a synthetic block: the new valuation and the index of
     the `_jump_targets` entry taken (`Except.ok none` = block has no successor: halt). -/
-def synthExec (consume : Bool) (b : Blk) (val : Val) : Except String (Val × Option Nat) :=
+def synthExec (consume : Bool) (b : Blk) (val : Val) : Except (Bool × String) (Val × Option Nat) :=
   if b.kind.isBranching then
     match val.get? b.var with
-    | none => .error s!"ctl:unset {b.name} {b.var}"
+    | none => .error (true, s!"ctl:unset {b.name} {b.var}")
     | some x =>
       match (b.tbl.find? (fun p => p.1 == x)).map (·.2) with
-      | none => .error s!"ctl:not-a-key {b.name} {b.var}={x}"
+      | none => .error (true, s!"ctl:not-a-key {b.name} {b.var}={x}")
       | some t =>
         match idxOf b.jts t with
-        | none => .error s!"ctl:table-entry-not-a-successor {b.name} {t}"
+        | none => .error (true, s!"ctl:table-entry-not-a-successor {b.name} {t}")
         | some i =>
           let val' := if consume && b.kind == .synthLatch then val.erase b.var else val
           .ok (val', some i)
@@ -75,22 +75,22 @@ def synthExec (consume : Bool) (b : Blk) (val : Val) : Except String (Val × Opt
     match b.jts with
     | [] => .ok (val', none)
     | [_] => .ok (val', some 0)
-    | _ => .error s!"synthetic-block-with-several-successors {b.name}"
+    | _ => .error (false, s!"synthetic-block-with-several-successors {b.name}")
 
 /-- Run through synthetic blocks, by name, until an original block or a halt. -/
 def advanceName (H : Hier) (consume : Bool) : Nat → Name → Val → WState
-  | 0, n, _ => .err s!"out-of-fuel at {n}"
+  | 0, n, _ => .err false s!"out-of-fuel at {n}"
   | f + 1, n, val =>
     match resolve H (H.length + 1) n with
-    | none => .err s!"dangling {n}"
+    | none => .err false s!"dangling {n}"
     | some b =>
       if b.isOrig then .at b.name val
       else match synthExec consume b val with
-        | .error e => .err e
+        | .error e => .err e.1 e.2
         | .ok (_, none) => .halt
         | .ok (val', some i) =>
           match b.jts[i]? with
-          | none => .err s!"bad-index {b.name}"
+          | none => .err false s!"bad-index {b.name}"
           | some t => advanceName H consume f t val'
 
 def walkFuel (H : Hier) : Nat := 4 * H.length + 16
@@ -105,28 +105,28 @@ def arityIn (next : Nat → WState) (b : Blk) : Nat :=
 
 def obsOf (H : Hier) (next : Blk → Val → Nat → WState) : WState → Obs
   | .halt => .halt
-  | .err m => .err m
+  | .err c m => .err c m
   | .at n val => match H.get? n with
-    | none => .err s!"no-such-block {n}"
+    | none => .err false s!"no-such-block {n}"
     | some b => .blk n (arityIn (next b val) b)
 
 def stepName (H : Hier) (consume : Bool) (b : Blk) (val : Val) (i : Nat) : WState :=
   match b.jts[i]? with
-  | none => .err s!"bad-index {b.name}"
+  | none => .err false s!"bad-index {b.name}"
   | some t => advanceName H consume (walkFuel H) t val
 
 def sysName (H : Hier) (consume : Bool) : Sys WState where
   obs := obsOf H (stepName H consume)
   step := fun s i => match s with
     | .at n val => match H.get? n with
-      | none => .err s!"no-such-block {n}"
+      | none => .err false s!"no-such-block {n}"
       | some b => stepName H consume b val i
     | s => s
 
 /-- Start state of a walk by name: enter at the head of the top level. -/
 def initName (H : Hier) (top : Name) (consume : Bool) : WState :=
   match findHeadOf (H.level top) with
-  | none => .err "no-unique-head"
+  | none => .err false "no-unique-head"
   | some h => advanceName H consume (walkFuel H) h []
 
 /-! ## Walking region by region -/
@@ -168,35 +168,35 @@ def regionStep (H : Hier) (b : Blk) (i : Nat) : Except String Blk :=
   | some t => leave H (H.length + 1) b t (b.bes.contains t)
 
 def advanceRegion (H : Hier) (consume : Bool) : Nat → Blk → Val → WState
-  | 0, b, _ => .err s!"out-of-fuel at {b.name}"
+  | 0, b, _ => .err false s!"out-of-fuel at {b.name}"
   | f + 1, b, val =>
     if b.isOrig then .at b.name val
     else match synthExec consume b val with
-      | .error e => .err e
+      | .error e => .err e.1 e.2
       | .ok (_, none) => .halt
       | .ok (val', some i) =>
         match regionStep H b i with
-        | .error e => .err e
+        | .error e => .err false e
         | .ok b' => advanceRegion H consume f b' val'
 
 def stepRegion (H : Hier) (consume : Bool) (b : Blk) (val : Val) (i : Nat) : WState :=
   match regionStep H b i with
-  | .error e => .err e
+  | .error e => .err false e
   | .ok b' => advanceRegion H consume (walkFuel H) b' val
 
 def sysRegion (H : Hier) (consume : Bool) : Sys WState where
   obs := obsOf H (stepRegion H consume)
   step := fun s i => match s with
     | .at n val => match H.get? n with
-      | none => .err s!"no-such-block {n}"
+      | none => .err false s!"no-such-block {n}"
       | some b => stepRegion H consume b val i
     | s => s
 
 def initRegion (H : Hier) (top : Name) (consume : Bool) : WState :=
   match findHeadOf (H.level top) with
-  | none => .err "no-unique-head"
+  | none => .err false "no-unique-head"
   | some h => match enter H (H.length + 1) top h with
-    | .error e => .err e
+    | .error e => .err false e
     | .ok b => advanceRegion H consume (walkFuel H) b []
 
 /-! ## The deciders used for C01 / C06 -/
